@@ -163,6 +163,10 @@ func runC19(c *Ctx) {
 			c.Check(len(ins) == 1 && loop != nil && enclosingLoop(loopLit.Body, ins[0]) == ast.Stmt(loop), "C19.3", key, loopLit.Pos(), "one EvaluateInsert per iteration", "the import loop does not execute exactly one INSERT per record")
 			// error edges before the insert: each `if err != nil`/guard block must end in continue (or break for non-parse read errors)
 			n := 0
+			var recObj types.Object
+			for _, rd := range f.Calls(loop.Body, false, "csv.Reader.Read") {
+				recObj = f.resultVar(loop.Body, rd, 0)
+			}
 			for _, st := range loop.Body.List {
 				ifs, ok := st.(*ast.IfStmt)
 				if !ok || len(ins) == 0 || ifs.End() > ins[0].Pos() {
@@ -196,6 +200,22 @@ func runC19(c *Ctx) {
 					})
 					if !mentionsErr && !endsBr && !sends && !usesRecord {
 						continue
+					}
+					// a configured skip (`if cfg.skipHeader && line == 1 { continue }`): the condition looks neither
+					// at an error nor at the record — nothing is rejected, there is nothing to report
+					if !mentionsErr && !usesRecord && !sends {
+						reads := false
+						ast.Inspect(ifs.Cond, func(y ast.Node) bool {
+							if id, ok := y.(*ast.Ident); ok {
+								if o := f.ObjOf(id); o != nil && recObj != nil && o == recObj {
+									reads = true
+								}
+							}
+							return true
+						})
+						if !reads {
+							continue
+						}
 					}
 				}
 				n++
@@ -340,6 +360,19 @@ func runC19(c *Ctx) {
 		})
 		key := cf.Name + "|null-marker-first"
 		if nullIf == nil {
+			// the marker may have become configurable: a comparison of the field with a non-constant string
+			inspectBody(cf.Decl.Body, func(x ast.Node) bool {
+				if ifs, ok := x.(*ast.IfStmt); ok && nullIf == nil {
+					if be, ok := ast.Unparen(ifs.Cond).(*ast.BinaryExpr); ok && be.Op == token.EQL && cf.constOf(be.Y) == nil && cf.constOf(be.X) == nil {
+						if b, ok := cf.TypeOf(be.X).Underlying().(*types.Basic); ok && b.Kind() == types.String && endsWithContinue(ifs.Body) {
+							nullIf = ifs
+						}
+					}
+				}
+				return true
+			})
+		}
+		if nullIf == nil {
 			c.Fail("C19.4", key, cf.Decl.Pos(), "no test for the \\N marker")
 		} else {
 			nl, _ := g.Locate(nullIf.Cond)
@@ -421,8 +454,30 @@ func runC19(c *Ctx) {
 		okOrder := false
 		inspectBody(tf.Decl.Body, func(x ast.Node) bool {
 			if rs, ok := x.(*ast.RangeStmt); ok && exprKey(rs.X) == paramName(tf, 2) {
+				// the type stored at position i is derived from the catalog entry looked up for destination
+				// column i (the range value), whatever conversion is applied on the way
 				for _, st := range rs.Body.List {
-					if as, ok := st.(*ast.AssignStmt); ok && strings.HasSuffix(exprKey(as.Lhs[0]), "["+exprKey(rs.Key)+"]") && strings.Contains(exprKey(as.Rhs[0]), "storage.DataType(") {
+					as, ok := st.(*ast.AssignStmt)
+					if !ok || rs.Key == nil || rs.Value == nil || !strings.HasSuffix(exprKey(as.Lhs[0]), "["+exprKey(rs.Key)+"]") {
+						continue
+					}
+					fromLookup := false
+					ast.Inspect(as.Rhs[0], func(y ast.Node) bool {
+						switch z := y.(type) {
+						case *ast.IndexExpr:
+							if exprKey(z.Index) == exprKey(rs.Value) {
+								fromLookup = true
+							}
+						case *ast.Ident:
+							if rhs, _, ok := tf.definedBy(rs.Body, tf.ObjOf(z)); ok {
+								if ix, ok := ast.Unparen(rhs).(*ast.IndexExpr); ok && exprKey(ix.Index) == exprKey(rs.Value) {
+									fromLookup = true
+								}
+							}
+						}
+						return true
+					})
+					if fromLookup {
 						okOrder = true
 					}
 				}
